@@ -367,9 +367,29 @@ pub fn items(prop: &str, tier: &str) -> Vec<Item> {
         }
     };
     match prop {
-        "C02" => for s in lookup_scenarios(th) { v.push(item(s, Plan::Attack { bound: if th { 2 } else { 1 }, full: !th }, if th { 60_000 } else { 3_000 })); },
+        "C02" => {
+            for s in lookup_scenarios(th) { v.push(item(s, Plan::Attack { bound: if th { 2 } else { 1 }, full: !th }, if th { 60_000 } else { 3_000 })); }
+            // three (one walk: four) mutations per execution with the directory-swapping core, on every walk of the emulated resolver
+            if th {
+                for s in lookup_scenarios(true).into_iter().filter(|s| s.backend == "E" && (s.op.name == "resolve" || (s.op.name == "open_subpath" && s.path.contains("..")))) {
+                    let deep = s.path == "a/b/../b/c/../../b/c/d" && s.op.name == "resolve" && s.op.rflags.is_none();
+                    let mut it = item(s, Plan::Attack { bound: if deep { 4 } else { 3 }, full: false }, 400_000);
+                    it.scen.name = format!("bound{}:{}", if deep { 4 } else { 3 }, it.scen.name);
+                    v.push(it);
+                }
+            }
+        }
         "C03" => {
             for s in mutating_scenarios(th) { v.push(item(s, Plan::Attack { bound: if th { 2 } else { 1 }, full: !th }, if th { 60_000 } else { 3_000 })); }
+            // three mutations per execution with the directory-swapping core (both backends: the mutating operations are
+            // multi-syscall protocols on the kernel backend too)
+            if th {
+                for s in mutating_scenarios(false).into_iter().filter(|s| s.path.contains("a/b") || s.path.contains("abs")) {
+                    let mut it = item(s, Plan::Attack { bound: 3, full: false }, 400_000);
+                    it.scen.name = format!("bound3:{}", it.scen.name);
+                    v.push(it);
+                }
+            }
             bundle("sweep-rust", sweep_scenarios(th, false), 40, true, 0, &mut v);
             if th { bundle("sweep-c", sweep_scenarios(th, true), 40, true, 0, &mut v); }
         }
@@ -870,7 +890,13 @@ pub fn run_item(prop: &str, tier: &str, idx: usize, only: Option<&Value>) -> MRe
         let w = fresh_world()?;
         let mode = match &it.plan {
             Plan::Attack { full, .. } if prop == "C06" => Mode::Attack(mount_mutations(*full)),
-            Plan::Attack { full, .. } => Mode::Attack(mutations_for(&scen.path, *full)),
+            Plan::Attack { full, bound } => {
+                let mut m = mutations_for(&scen.path, *full);
+                // bound >= 3: the directory-swapping core only (one walked directory exchanged for an escaping link / an outside
+                // directory, moved out, moved back) - the moves every published attack on userspace resolvers is built from
+                if *bound >= 3 { m.retain(|x| (x.name.contains("root/a/b,") || x.name.contains("(root/a/b->") || x.name.contains("->root/a/b)")) && !x.name.contains("evil-dir")); }
+                Mode::Attack(m)
+            }
             Plan::Trace => Mode::Trace,
             Plan::Fault { cfg, .. } => Mode::Fault(cfg.clone()),
             Plan::Sched { .. } => Mode::Sched,
